@@ -12,6 +12,7 @@ type AgentCall struct {
 	T  int64  `json:"t,omitempty"` // deadline (start) or collect time, abstract ticks
 	H  int    `json:"h,omitempty"` // handler index for sethandler
 	E  int    `json:"e,omitempty"` // custom error index for stoperr
+	C  int    `json:"c,omitempty"` // process: class of the message (0 request, 1 indication, 2 success, 3 error) - irrelevant to the specification
 }
 
 // AgentEvent is one handler invocation in symbolic form.
